@@ -81,6 +81,7 @@ def jobs(tier):
     for enc in ('utf-8', 'latin-1'):
         sh.append(('hexjunk', enc))
     sh.append(('retrain', 'utf-8'))
+    sh.append(('locale', 0))
     # terminal files of more than 10 000 lines (what any real list gives), also under encodings that start a stream with a byte order mark
     for enc in ('utf-8', 'utf-16', 'utf-8-sig'):
         sh.append(('bigfile', enc))
@@ -451,8 +452,58 @@ def run_bigfile(enc, tier, acc):
     tree.rmtree(wd)
 
 
+LOCALE_SCRIPT = r'''
+import sys, json, hashlib
+sys.path.insert(0, %r)
+from pcfgmc import tree, pipeline as P
+from pcfgmc.props import c07
+from pcfgmc.runner import Acc
+tree.use()
+wd = tree.mkdtemp('pcfgmc-c07l-')
+out = {}
+for enc, lines in (('utf-8', ['\u043f\u0430\u0440\u043e\u043b\u044c1', 'caf\u00e912', 'x yz', '\U0001F600ok']), ('cp1251', ['\u043f\u0430\u0440\u043e\u043b\u044c1', 'password']),
+                   ('latin-1', ['caf\u00e912', 'na\u00efve']), ('utf-16', ['\u043f\u0430\u0440\u043e\u043b\u044c1', 'caf\u00e9'])):
+    fails = c07.compare_training(wd, lines, enc, Acc(), None)
+    out[enc] = [m[:200] for _, m in fails]
+    ok, base, o, pi = P.train(wd, lines, rule='t', encoding=enc)
+    out[enc + ' ruleset'] = hashlib.sha1(repr(sorted(P.tree_bytes(base).items())).encode()).hexdigest() if ok is True else repr(ok)
+tree.rmtree(wd)
+sys.stdout.write(json.dumps(out, ensure_ascii=True))
+'''
+
+
+def run_locale(tier, acc):
+    """The locale of the process (the default text encoding of open()) is no part of a ruleset's meaning: training and loading non-ASCII rulesets
+    in a process with a UTF-8 locale and in one with the POSIX locale (ASCII) give the same files and the same reader results."""
+    import json
+    import subprocess
+    import sys
+    verif = os.path.dirname(os.path.dirname(os.path.dirname(os.path.abspath(__file__))))
+    outs = {}
+    for name, env in (('C.UTF-8', {'LC_ALL': 'C.UTF-8', 'LANG': 'C.UTF-8'}), ('POSIX', {'LC_ALL': 'POSIX', 'LANG': 'POSIX', 'PYTHONCOERCECLOCALE': '0', 'PYTHONUTF8': '0'})):
+        e = dict(os.environ)
+        e.pop('PYTHONUTF8', None)
+        e.update(env)
+        r = subprocess.run([sys.executable, '-B', '-c', LOCALE_SCRIPT % verif], env=e, capture_output=True, text=True, timeout=600)
+        acc.evals += 1
+        acc.nontrivial += 1
+        try:
+            outs[name] = json.loads(r.stdout)
+        except Exception:
+            acc.fail({'layer': 'locale', 'locale': name}, 'training / loading in a process with locale %s failed: %s' % (name, (r.stderr or r.stdout).strip().splitlines()[-1:]), 'locale-raise')
+            return
+        for k, v in outs[name].items():
+            if isinstance(v, list) and v:
+                acc.fail({'layer': 'locale', 'locale': name, 'encoding': k}, 'locale %s, %s ruleset: %s' % (name, k, v[0]), 'locale-' + name)
+    if len(outs) == 2 and outs['C.UTF-8'] != outs['POSIX']:
+        diff = [k for k in outs['POSIX'] if outs['POSIX'][k] != outs['C.UTF-8'].get(k)]
+        acc.fail({'layer': 'locale'}, 'the rulesets trained under the POSIX locale differ from those trained under a UTF-8 locale: %r' % diff[:4], 'locale-differs')
+
+
 def run_shard(shard, tier, acc):
     kind = shard[0]
+    if kind == 'locale':
+        return run_locale(tier, acc)
     if kind == 'bigfile':
         return run_bigfile(shard[1], tier, acc)
     if kind == 'hexjunk':
@@ -522,6 +573,9 @@ def replay(case):
         return msg
     tree.use()
     wd = tree.mkdtemp('pcfgmc-c07r-')
+    if case['layer'] == 'locale':
+        run_locale('quick', acc)
+        return acc.failures[0]['msg'] if acc.failures else None
     if case['layer'] == 'bigfile':
         run_bigfile(case['encoding'], 'quick', acc)
         tree.rmtree(wd)
